@@ -1,3 +1,5 @@
+//go:build vp_all || vp_c06
+
 package main
 
 import "verif/internal/c06"
